@@ -351,7 +351,8 @@ Theorem pshape_form tau st parcs : shacl_arcs tau st = VOk parcs ->
                      parcs = pre ++ enc_path (s_inv st) u ++ post /\
                      Forall (other_arc st) pre /\ Forall (other_arc st) post.
 Proof.
-  unfold shacl_arcs. destruct (s_choice st); [discriminate|].
+  destruct (s_choice st) eqn:Ech; [intros H; exfalso; exact (shacl_arcs_choice_not_ok tau st parcs Ech H)|].
+  unfold shacl_arcs. rewrite Ech.
   destruct (s_types st) as [|ty [|ty2 tys]] eqn:Et; try discriminate.
   destruct (str_eqb (s_prop st) tau).
   - change shacl_instantiation_steps with
@@ -487,7 +488,7 @@ Lemma sstep_uri z tau sh : shape_step z tau sh (Str "_add_shape_uri") =
   Some (inl [(RDFNS "type", RIri (SH "NodeShape"))]).
 Proof. reflexivity. Qed.
 Lemma sstep_target z tau sh : shape_step z tau sh (Str "_add_target_class") =
-  Some (inl [(SH "targetClass", RIri (sh_class sh))]).
+  Some (inl [(SH "targetClass", RIri (target_class_obj (sh_class sh)))]).
 Proof. reflexivity. Qed.
 Lemma sstep_min_iri z tau sh : shape_step z tau sh (Str "_add_min_iri") =
   Some (if d_detect z then
@@ -525,7 +526,7 @@ Lemma shape_node_eq z tau sh :
     | inl pat =>
       match of_vres (vres_all (map (shacl_view tau) (sh_stmts sh))) with
       | inr e => inr e
-      | inl ps => inl (u, node_arcs (sh_class sh) pat ps)
+      | inl ps => inl (u, node_arcs (target_class_obj (sh_class sh)) pat ps)
       end
     end
   end.
@@ -564,14 +565,14 @@ Lemma vres_all_views tau : forall stmts ps,
 Proof.
   induction stmts as [|st l IH]; intros ps H; cbn [map vres_all] in H.
   - injection H as <-. constructor.
-  - unfold shacl_view at 1 in H. destruct (shacl_arcs tau st) as [parcs| | |] eqn:Ea; try discriminate.
-    destruct (vres_all (map (shacl_view tau) l)) as [r| | |]; try discriminate. injection H as <-.
+  - unfold shacl_view at 1 in H. destruct (shacl_arcs tau st) as [parcs| | | |] eqn:Ea; try discriminate.
+    destruct (vres_all (map (shacl_view tau) l)) as [r| | | |]; try discriminate. injection H as <-.
     constructor; [exists parcs; split; [exact Ea | reflexivity] | apply IH; reflexivity].
 Qed.
 
 Definition shape_rel (z : dcfg) (tau : str) (sh : shape) (n : str * list (str * rnode)) : Prop :=
   generate_shape_uri (sh_name sh) = Some (fst n) /\
-  exists pat ps, snd n = node_arcs (sh_class sh) pat ps /\
+  exists pat ps, snd n = node_arcs (target_class_obj (sh_class sh)) pat ps /\
                  (pat = [] \/ exists stem, pat = [(SH "pattern", literal_iri_pattern stem)]) /\
                  Forall2 (view_rel tau) (sh_stmts sh) ps.
 
@@ -579,7 +580,7 @@ Lemma shape_node_form z tau sh n : shape_node z tau sh = inl n -> shape_rel z ta
 Proof.
   rewrite shape_node_eq. destruct (generate_shape_uri (sh_name sh)) as [u|] eqn:Eu; [|discriminate].
   set (pt := if d_detect z then _ else _). destruct pt as [pat|e] eqn:Ept; [|discriminate].
-  destruct (vres_all (map (shacl_view tau) (sh_stmts sh))) as [ps| | |] eqn:Ev; try discriminate.
+  destruct (vres_all (map (shacl_view tau) (sh_stmts sh))) as [ps| | | |] eqn:Ev; try discriminate.
   cbn [of_vres]. intros H. injection H as <-. split; [exact Eu|]. exists pat, ps. split; [reflexivity|]. split.
   - unfold pt in Ept. destruct (d_detect z); [destruct (d_pat z (sh_class sh)) as [[stem|]|]|];
       try discriminate; injection Ept as <-; [right; eexists; reflexivity | left; reflexivity | left; reflexivity].
@@ -634,7 +635,7 @@ Inductive triple_origin (z : dcfg) (tau : str) (shapes : list shape) (d : list (
 | TO_type i sh u arcs : nth_error shapes i = Some sh -> nth_error d i = Some (u, arcs) -> shape_rel z tau sh (u, arcs) ->
     t = (TIri u, RDFNS "type", TIri (SH "NodeShape")) -> triple_origin z tau shapes d t
 | TO_target i sh u arcs : nth_error shapes i = Some sh -> nth_error d i = Some (u, arcs) -> shape_rel z tau sh (u, arcs) ->
-    t = (TIri u, SH "targetClass", TIri (sh_class sh)) -> triple_origin z tau shapes d t
+    t = (TIri u, SH "targetClass", TIri (target_class_obj (sh_class sh))) -> triple_origin z tau shapes d t
 | TO_pattern i sh u arcs stem : nth_error shapes i = Some sh -> nth_error d i = Some (u, arcs) -> shape_rel z tau sh (u, arcs) ->
     t = (TIri u, SH "pattern", TLit (Str "^" ++ stem) []) -> triple_origin z tau shapes d t
 | TO_pshape i sh u arcs k j st parcs :
@@ -809,10 +810,10 @@ Proof.
 Qed.
 
 Lemma doc_fst z tau : forall shapes d, Forall2 (shape_rel z tau) shapes d ->
-  forall L, names_iris shapes L -> map fst d = map fst L.
+  forall f L, names_iris_by f shapes L -> map fst d = map fst L.
 Proof.
-  induction 1 as [|sh n shapes d Hrel _ IH]; intros L HL; inversion HL as [|? uc ? L' [Hn _] HL']; subst; [reflexivity|].
-  cbn [map]. f_equal; [|apply IH; exact HL'].
+  induction 1 as [|sh n shapes d Hrel _ IH]; intros f L HL; inversion HL as [|? uc ? L' [Hn _] HL']; subst; [reflexivity|].
+  cbn [map]. f_equal; [|apply (IH f); exact HL'].
   destruct Hrel as [Hg _]. rewrite Hn, generate_shape_uri_label in Hg. injection Hg as Hg. symmetry. exact Hg.
 Qed.
 
@@ -824,8 +825,8 @@ Proof.
   intros H. injection H as <-. exact (graph_one_path z tau shapes d (doc_nodes_form _ _ _ _ Ed)).
 Qed.
 
-Theorem shacl_gen_node_objects_declared z ns tau shapes L g :
-  shacl_graph_gen z ns tau shapes = inl g -> names_iris shapes L -> ClosureLemmas.refs_closed shapes ->
+Theorem shacl_gen_node_objects_declared_by f z ns tau shapes L g :
+  shacl_graph_gen z ns tau shapes = inl g -> names_iris_by f shapes L -> ClosureLemmas.refs_closed shapes ->
   node_objects_declared g (map fst L).
 Proof.
   unfold shacl_graph_gen. destruct (doc_nodes z tau shapes) as [d|e] eqn:Ed; [|discriminate].
@@ -844,8 +845,13 @@ Proof.
   exists i', sh', u, arcs. auto.
 Qed.
 
-Theorem shacl_gen_node_shapes_iff z ns tau shapes L g :
-  shacl_graph_gen z ns tau shapes = inl g -> names_iris shapes L ->
+Theorem shacl_gen_node_objects_declared z ns tau shapes L g :
+  shacl_graph_gen z ns tau shapes = inl g -> names_iris shapes L -> ClosureLemmas.refs_closed shapes ->
+  node_objects_declared g (map fst L).
+Proof. exact (shacl_gen_node_objects_declared_by (fun c => c) z ns tau shapes L g). Qed.
+
+Theorem shacl_gen_node_shapes_iff_by f z ns tau shapes L g :
+  shacl_graph_gen z ns tau shapes = inl g -> names_iris_by f shapes L ->
   forall n, node_shape g n <-> exists u c, In (u, c) L /\ n = TIri u.
 Proof.
   unfold shacl_graph_gen. destruct (doc_nodes z tau shapes) as [d|e] eqn:Ed; [|discriminate].
@@ -862,20 +868,46 @@ Proof.
     rewrite Hn, generate_shape_uri_label in Hg. injection Hg as <-. exists i, sh, u, arcs. auto.
 Qed.
 
-Theorem shacl_gen_node_shapes_exact z ns tau shapes L g :
-  shacl_graph_gen z ns tau shapes = inl g -> names_iris shapes L -> NoDup (map fst L) ->
+Theorem shacl_gen_node_shapes_iff z ns tau shapes L g :
+  shacl_graph_gen z ns tau shapes = inl g -> names_iris shapes L ->
+  forall n, node_shape g n <-> exists u c, In (u, c) L /\ n = TIri u.
+Proof. exact (shacl_gen_node_shapes_iff_by (fun c => c) z ns tau shapes L g). Qed.
+
+(** S3, second half: each node shape is typed once and has exactly one [sh:targetClass], the IRI
+    [_add_target_class] makes of the class key of its shape ([target_class_obj]) *)
+Theorem shacl_gen_node_shapes_exact_by z ns tau shapes L g :
+  shacl_graph_gen z ns tau shapes = inl g -> names_iris_by target_class_obj shapes L -> NoDup (map fst L) ->
   node_shapes_exact g L.
 Proof.
-  intros Hg HL Hnd. split; [exact (shacl_gen_node_shapes_iff z ns tau shapes L g Hg HL)|].
+  intros Hg HL Hnd. split; [exact (shacl_gen_node_shapes_iff_by _ z ns tau shapes L g Hg HL)|].
   revert Hg. unfold shacl_graph_gen. destruct (doc_nodes z tau shapes) as [d|e] eqn:Ed; [|discriminate].
   intros H. injection H as <-. pose proof (doc_nodes_form _ _ _ _ Ed) as HF.
   intros u c Hin. apply In_nth_error in Hin. destruct Hin as [i HLi].
   destruct (Forall2_nth_r _ _ _ HL i _ HLi) as [sh [Hs [Hn Hc]]]. cbn [fst snd] in Hn, Hc.
   destruct (Forall2_nth_l _ _ _ HF i sh Hs) as [[u' arcs] [Hd [Hgen [pat [ps [Harcs [Hpat _]]]]]]].
   cbn [fst snd] in Hgen, Harcs. rewrite Hn, generate_shape_uri_label in Hgen. injection Hgen as <-. subst arcs.
-  assert (Hndd : NoDup (map fst d)) by (rewrite (doc_fst z tau shapes d HF L HL); exact Hnd).
+  assert (Hndd : NoDup (map fst d)) by (rewrite (doc_fst z tau shapes d HF _ L HL); exact Hnd).
   rewrite !(objects_doc_iri_unique _ u _ d i 0 Hndd Hd). rewrite Hc.
   exact (direct_objects_node_arcs [0 + i] c pat ps Hpat).
+Qed.
+
+Lemma names_iris_by_class shapes L :
+  (forall sh, In sh shapes -> target_class_obj (sh_class sh) = sh_class sh) ->
+  names_iris shapes L -> names_iris_by target_class_obj shapes L.
+Proof.
+  intros Hc HL. induction HL as [|sh uc shapes L [Hn Hcl] _ IH]; constructor.
+  - split; [exact Hn|]. rewrite (Hc sh (or_introl eq_refl)). exact Hcl.
+  - apply IH. intros sh' Hin. apply Hc. right. exact Hin.
+Qed.
+
+(** the statement with "its class" read as the class key itself: whenever [_add_target_class] leaves
+    the keys of the list as they are (no key in corners, or the text that does not touch the key) *)
+Theorem shacl_gen_node_shapes_exact z ns tau shapes L g :
+  (forall sh, In sh shapes -> target_class_obj (sh_class sh) = sh_class sh) ->
+  shacl_graph_gen z ns tau shapes = inl g -> names_iris shapes L -> NoDup (map fst L) ->
+  node_shapes_exact g L.
+Proof.
+  intros Hc Hg HL. exact (shacl_gen_node_shapes_exact_by z ns tau shapes L g Hg (names_iris_by_class shapes L Hc HL)).
 Qed.
 
 (** *** [detect_minimal_iri] off: composition with C11 *)
@@ -885,21 +917,21 @@ Theorem shacl_graph_of_doc ns tau shapes :
 Proof. unfold shacl_graph, shacl_graph_gen. rewrite doc_nodes_shacl_doc. reflexivity. Qed.
 
 Lemma names_iris_exists ns tau : forall shapes, forallb (C11_dom_shape ns tau) shapes = true ->
-  exists L, names_iris shapes L.
+  exists L, names_iris_by target_class_obj shapes L.
 Proof.
   induction shapes as [|sh l IH]; intros H; [exists []; constructor|].
   cbn [forallb] in H. apply andb_true_iff in H. destruct H as [Hsh Hl].
   destruct (IH Hl) as [L HL]. unfold C11_dom_shape in Hsh. rewrite !andb_true_iff in Hsh.
   destruct Hsh as [[_ Hn] _]. apply shape_ref_form in Hn. destruct Hn as [i Hi].
-  exists ((i, sh_class sh) :: L). constructor; [split; [exact Hi | reflexivity] | exact HL].
+  exists ((i, target_class_obj (sh_class sh)) :: L). constructor; [split; [exact Hi | reflexivity] | exact HL].
 Qed.
 
 (** on C11's domain the graph exists, is the flattening of C11's document -- which C11 relates to the
     ShExC text -- and its node shapes are listed by some [L] *)
 Theorem shacl_graph_total ns tau shapes : forallb (C11_dom_shape ns tau) shapes = true ->
   exists cs d L, shex_doc_view ns tau shapes = VOk cs /\ shacl_doc tau shapes = VOk d /\
-                 same_doc d (enc_doc cs) /\ shacl_graph ns tau shapes = inl (doc_triples 0 d) /\
-                 names_iris shapes L.
+                 same_doc d (enc_doc (map retarget cs)) /\ shacl_graph ns tau shapes = inl (doc_triples 0 d) /\
+                 names_iris_by target_class_obj shapes L.
 Proof.
   intros H. destruct (docs_agree ns tau shapes H) as [cs [d [H1 [H2 H3]]]].
   destruct (names_iris_exists ns tau shapes H) as [L HL]. exists cs, d, L.
@@ -930,7 +962,7 @@ Proof.
 Qed.
 
 (** distinct labels, distinct IRIs *)
-Lemma names_iris_NoDup shapes L : names_iris shapes L -> NoDup (map sh_name shapes) -> NoDup (map fst L).
+Lemma names_iris_NoDup f shapes L : names_iris_by f shapes L -> NoDup (map sh_name shapes) -> NoDup (map fst L).
 Proof.
   intros HL. assert (E : map sh_name shapes = map (fun u => Str "%<" ++ u ++ Str ">") (map fst L)).
   { induction HL as [|sh uc shapes L [Hn _] _ IH]; [reflexivity|]. cbn [map]. rewrite Hn, IH. reflexivity. }
@@ -940,12 +972,46 @@ Qed.
 (** S1-S3 together on C11's domain: the graph exists and is well-formed *)
 Theorem shacl_graph_wellformed ns tau shapes :
   forallb (C11_dom_shape ns tau) shapes = true -> refs_closed shapes -> NoDup (map sh_name shapes) ->
-  exists g L, shacl_graph ns tau shapes = inl g /\ names_iris shapes L /\
+  exists g L, shacl_graph ns tau shapes = inl g /\ names_iris_by target_class_obj shapes L /\
               node_objects_declared g (map fst L) /\ property_shapes_one_path g /\ node_shapes_exact g L.
 Proof.
   intros Hdom Hrc Hnd. destruct (shacl_graph_total ns tau shapes Hdom) as [cs [d [L [_ [_ [_ [Hg HL]]]]]]].
   exists (doc_triples 0 d), L. split; [exact Hg|]. split; [exact HL|].
-  split; [exact (shacl_gen_node_objects_declared _ _ _ _ _ _ Hg HL Hrc)|].
+  split; [exact (shacl_gen_node_objects_declared_by _ _ _ _ _ _ _ Hg HL Hrc)|].
   split; [exact (shacl_gen_one_path _ _ _ _ _ Hg)|].
-  exact (shacl_gen_node_shapes_exact _ _ _ _ _ _ Hg HL (names_iris_NoDup _ _ HL Hnd)).
+  exact (shacl_gen_node_shapes_exact_by _ _ _ _ _ _ Hg HL (names_iris_NoDup _ _ _ HL Hnd)).
+Qed.
+
+(** *** the statements of this section with "the class" read as the class key itself: for shape lists
+    whose class keys [_add_target_class] leaves as they are (no key in corners -- every class-based
+    extraction --, or the text of the method that does not touch the key) *)
+Lemma names_iris_of_by shapes L :
+  (forall sh, In sh shapes -> target_class_obj (sh_class sh) = sh_class sh) ->
+  names_iris_by target_class_obj shapes L -> names_iris shapes L.
+Proof.
+  intros Hc HL. induction HL as [|sh uc shapes L [Hn Hcl] _ IH]; constructor.
+  - split; [exact Hn|]. rewrite <- (Hc sh (or_introl eq_refl)). exact Hcl.
+  - apply IH. intros sh' Hin. apply Hc. right. exact Hin.
+Qed.
+
+Theorem shacl_graph_total_class ns tau shapes : forallb (C11_dom_shape ns tau) shapes = true ->
+  (forall sh, In sh shapes -> target_class_obj (sh_class sh) = sh_class sh) ->
+  exists cs d L, shex_doc_view ns tau shapes = VOk cs /\ shacl_doc tau shapes = VOk d /\
+                 same_doc d (enc_doc cs) /\ shacl_graph ns tau shapes = inl (doc_triples 0 d) /\
+                 names_iris shapes L.
+Proof.
+  intros H Hc. destruct (docs_agree_class ns tau shapes H Hc) as [cs [d [H1 [H2 H3]]]].
+  destruct (names_iris_exists ns tau shapes H) as [L HL]. exists cs, d, L.
+  split; [exact H1|]. split; [exact H2|]. split; [exact H3|]. split; [|exact (names_iris_of_by shapes L Hc HL)].
+  rewrite shacl_graph_of_doc, H2. reflexivity.
+Qed.
+
+Theorem shacl_graph_wellformed_class ns tau shapes :
+  forallb (C11_dom_shape ns tau) shapes = true -> refs_closed shapes -> NoDup (map sh_name shapes) ->
+  (forall sh, In sh shapes -> target_class_obj (sh_class sh) = sh_class sh) ->
+  exists g L, shacl_graph ns tau shapes = inl g /\ names_iris shapes L /\
+              node_objects_declared g (map fst L) /\ property_shapes_one_path g /\ node_shapes_exact g L.
+Proof.
+  intros Hdom Hrc Hnd Hc. destruct (shacl_graph_wellformed ns tau shapes Hdom Hrc Hnd) as [g [L [Hg [HL [H1 [H2 H3]]]]]].
+  exists g, L. split; [exact Hg|]. split; [exact (names_iris_of_by shapes L Hc HL)|]. auto.
 Qed.
